@@ -1,0 +1,12 @@
+//go:build verif
+
+package client
+
+// Comment-only file: contracts read by /verif's govc (see pkg/oidc/zz_verif_contracts.go).
+
+// (nil, nil) is a documented outcome (no redirect location / polling ended without token):
+// callers must not rely on the (value, nil) idiom.
+//@ func client.CallEndSessionEndpoint
+//@   requires valid(caller)
+//@ func client.PollDeviceAccessTokenEndpoint
+//@   requires valid(caller)
